@@ -8,6 +8,7 @@ import Driver.VersionDriver
 import Driver.VCacheDriver
 import Driver.PartitionDriver
 import Driver.ConfigDriver
+import Driver.ConcDriver
 open Driver
 
 def main (args : List String) : IO UInt32 := do
@@ -23,5 +24,6 @@ def main (args : List String) : IO UInt32 := do
   | ["vcache"] => loop VCacheDriver.stepLine stdin stdout ({} : Memento.VersionCache.St); return 0
   | ["partition"] => loop PartitionDriver.stepLine stdin stdout (none : Option Memento.Partition.Part); return 0
   | ["config"] => loop ConfigDriver.stepLine stdin stdout (); return 0
+  | ["conc"] => loop ConcDriver.stepLine stdin stdout (Memento.Conc.init (fun _ => false) 0); return 0
   | ["store"] => loop StoreDriver.stepLine stdin stdout StoreDriver.St.none; return 0
   | _ => IO.eprintln "usage: mmodel <model>"; return 2
